@@ -39,7 +39,8 @@ REQUIRED = dict(monitors=['deck-opaque-at-or-below-top', 'deck-zero-above', 'dec
                          'retune:flat', 'retune:lee', 'retune:evaluation-after-write', 'retune:pressure-range-written',
                          'retune:pressure-moved-by:array-refilled-in-place', 'retune:pressure-moved-by:fitting-parameters',
                          'retune:deck-top-stepped-across-a-layer-pressure-by-a-hair',
-                         'retune:dozens-of-particle-sizes-earlier-ones-again', 'pressure-grid:integer-array'])
+                         'retune:dozens-of-particle-sizes-earlier-ones-again', 'pressure-grid:integer-array',
+                         'shared:one-haze-object-in-two-models-of-different-layer-counts'])
 
 
 def classify(f):
@@ -86,6 +87,7 @@ def run_pair(ctx, spec, extra):
     if hazy is not None:
         hazy['model_levels'] = np.array(hm.pressure.pressure_profile_levels, dtype=float)
         hazy['model_P_dtype'] = str(np.asarray(hm.pressureProfile).dtype)
+        hazy['model'] = hm
     return clear, hazy, s2
 
 
@@ -261,6 +263,27 @@ def wl_flat(ctx, rng):
         cls = window_class(bottom, top, lev)
         ctx.check('integer-pressure-array-reaches-the-model', hazy['model_P_dtype'].startswith('int'), dtype=hazy['model_P_dtype'])
     sig = judge_flat(ctx, clear, hazy, lev, bottom, top, mix, cls, spec=s2)
+    if ctx.case['index'] % 4 == 2:
+        # ONE haze object, two owners: a second model of the same atmosphere on another number of layers (a coarse and a fine
+        # model side by side) uses the very same contribution object; it is evaluated, then the first one again
+        n2 = int(rng.choice([n_ for n_ in (2, 3, 4, 5, 7, 10, 13, 30) if n_ != spec['nlayers']]))
+        sp2 = dict(spec, nlayers=n2)
+        sp2.pop('pressure_route', None)
+        if sp2['temperature']['kind'] not in ('npoint', 'array') and all(g['kind'] != 'array' for g in sp2['gases']) and world.is_bound(sp2):
+            world.reset_caches()
+            world.install_opacities(sp2)
+            haze = [c for c in hazy['model'].contribution_list if type(c).__name__ == 'FlatMieContribution'][0]
+            clear2 = base.run_model(ctx, base.build_more(sp2))
+            m2 = base.build_more(sp2)
+            m2.add_contribution(haze)
+            hazy2 = base.run_model(ctx, m2)
+            if clear2 is not None and hazy2 is not None:
+                lev2, _ = levels_of(sp2)
+                judge_flat(ctx, clear2, hazy2, lev2, bottom, top, mix, window_class(bottom, top, lev2), shared='second owner')
+                again = base.run_model(ctx, hazy['model'], build=False)
+                if again is not None:
+                    judge_flat(ctx, clear, again, lev, bottom, top, mix, cls, shared='first owner again')
+                ctx.observe('shared:one-haze-object-in-two-models-of-different-layer-counts')
     ctx.sig('flat', spec['nlayers'], cls, round(spec['planet_mass'], 6), round(math.log10(mix), 3))
     ctx.sample({'kind': 'FlatMie', 'class': cls, 'nlayers': spec['nlayers'], 'bottomP': bottom, 'topP': top,
                 'layers_with_extinction': int(np.sum(np.any(sig > 0, axis=1)))})
